@@ -58,9 +58,10 @@ theorem spec_see_eq_exchangeValue (value : Nat → Int) (P : Fide.Pos) (src tgt 
   P18.spec_see_eq value P src tgt
 
 -- the example position of C18 (white Rd1 Rd2 Ke1, black Qd5 pe6 Ke8), Rd2xd5: the specification finds pawn, rook
-example : specSeq pieceValue 40 (capBoard (absPos c18ExamplePos) 11 35) 35 1 = [100, 510] := by
+-- (stated through `pieceValue`, not through the current numbers `[100, 510]` / `500`, so that tuning the piece values does not break them)
+example : specSeq pieceValue 40 (capBoard (absPos c18ExamplePos) 11 35) 35 1 = [pieceValue PAWN, pieceValue ROOK] := by
   set_option maxRecDepth 100000 in decide +kernel
-example : Fide.see pieceValue (absPos c18ExamplePos) 11 35 = 500 ∧ exchangeValue 910 510 [100, 510] = 500 := by
+example : Fide.see pieceValue (absPos c18ExamplePos) 11 35 = c18ExampleSpec := by
   set_option maxRecDepth 100000 in decide +kernel
 
 /-! ### a concrete instance for the `example`s: Rd2xd5 in the example position of C18 -/
@@ -77,12 +78,13 @@ theorem C18b.ex_WF : WF c18ExamplePos = true := by
   unfold WF; rw [h1, h2, h3]; rfl
 
 /-- all hypotheses of `see_sign_spec_partial` / `see_attackers_spec` / `see_king_rule` hold together for a concrete
-capture: the word the generator produces for Rd2xd5 (d2 = 11, d5 = 35) in the example position of C18; `see` gives 910.
+capture: the word the generator produces for Rd2xd5 (d2 = 11, d5 = 35) in the example position of C18; `see` gives `c18ExampleSee`
+(currently 910).
 (The generated word and its successor are obtained through C01/C02 — evaluating `genMoves` in the kernel would need the
 attack tables.) -/
 theorem C18b.ex_hyps (K : Keys) : ∃ m q v, WF c18ExamplePos = true ∧ c18ExamplePos.at m.tgt ≠ 0 ∧ m.kind ≠ 2 ∧
     m ∈ genMoves c18ExamplePos ∧ makeMove K c18ExamplePos m = some q ∧ isLegal q = true ∧
-    popcount c18ExamplePos.all ≤ 32 ∧ see c18ExamplePos m = some v ∧ m.src = 11 ∧ m.tgt = 35 ∧ v = 910 := by
+    popcount c18ExamplePos.all ≤ 32 ∧ see c18ExamplePos m = some v ∧ m.src = 11 ∧ m.tgt = 35 ∧ v = c18ExampleSee := by
   have hw := C18b.ex_WF
   have hmem : (⟨11, 35, none⟩ : Fide.Move) ∈ (genMoves c18ExamplePos).map absMove := by
     rw [(genMoves_exact c18ExamplePos hw).1]; decide +kernel
@@ -96,7 +98,7 @@ theorem C18b.ex_hyps (K : Keys) : ∃ m q v, WF c18ExamplePos = true ∧ c18Exam
   have hleg : isLegal q = true := by
     rw [LG.isLegal_succ c18ExamplePos hw m hm q hshq hsideq hat, habsq, habs]
     decide +kernel
-  refine ⟨m, q, 910, hw, hcap, hk2, hm, hq, hleg, by decide +kernel, ?_, hs, ht, rfl⟩
+  refine ⟨m, q, c18ExampleSee, hw, hcap, hk2, hm, hq, hleg, by decide +kernel, ?_, hs, ht, rfl⟩
   have e : see c18ExamplePos m = see c18ExamplePos (11 ||| (35 <<< 6)) := by
     unfold see
     rw [hs, ht]
@@ -119,7 +121,7 @@ theorem see_attackers_spec (K : Keys) (p : Pos) (hw : WF p = true) (m : Move) (h
 
 -- hypotheses satisfiable (`C18b.ex_hyps`); there the model's loop finds the specification's list [pawn, rook]
 example (K : Keys) : ∃ m, m.src = 11 ∧ m.tgt = 35 ∧
-    attackerValues c18ExamplePos m.tgt (seeMaxXray c18ExamplePos) 30 (seeInit c18ExamplePos m) = [100, 510] := by
+    attackerValues c18ExamplePos m.tgt (seeMaxXray c18ExamplePos) 30 (seeInit c18ExamplePos m) = [pieceValue PAWN, pieceValue ROOK] := by
   obtain ⟨m, q, v, hw, hcap, hk2, hm, hq, hleg, hcnt, _, hs, ht, _⟩ := C18b.ex_hyps K
   refine ⟨m, hs, ht, ?_⟩
   rw [see_attackers_spec K _ hw m hcap hk2 hm q hq hleg hcnt, hs, ht]
@@ -164,10 +166,11 @@ theorem see_sign_spec_partial (K : Keys) (p : Pos) (hw : WF p = true) (m : Move)
     rw [cf.src_piece]; exact (newPiece_color _ cf.side_lt _ cf.type_lt).1
   rw [hcol]
 
--- hypotheses satisfiable (`C18b.ex_hyps`: Rd2xd5 in the example position of C18).  There `see` returns 910 (the early
--- exit fires) while the specification's minimax is 500: different values, same sign — what the theorem says.
-example (K : Keys) : ∃ m v, see c18ExamplePos m = some v ∧ v = 910 ∧
-    Fide.see pieceValue (absPos c18ExamplePos) m.src m.tgt = 500 ∧
+-- hypotheses satisfiable (`C18b.ex_hyps`: Rd2xd5 in the example position of C18).  There `see` returns `c18ExampleSee` (currently 910:
+-- the early exit fires) while the specification's minimax is `c18ExampleSpec` (currently 500): different values, same sign — what the
+-- theorem says.
+example (K : Keys) : ∃ m v, see c18ExamplePos m = some v ∧ v = c18ExampleSee ∧
+    Fide.see pieceValue (absPos c18ExamplePos) m.src m.tgt = c18ExampleSpec ∧
     Fide.signOf v = Fide.signOf (Fide.see pieceValue (absPos c18ExamplePos) m.src m.tgt) := by
   obtain ⟨m, q, v, hw, hcap, hk2, hm, hq, hleg, hcnt, hv, hs, ht, hv9⟩ := C18b.ex_hyps K
   refine ⟨m, v, hv, hv9, ?_, see_sign_spec_partial K _ hw m hcap hk2 hm q hq hleg hcnt v hv⟩
